@@ -6,14 +6,16 @@
              the abstract fields of a scenario onto concrete editable parts of the flow type (request, response,
              messages, metadata, marker, comment, error) and each value onto a concrete edit.
    bk[h]   : Flow._backup: <<>> (None) or <<content>> -- the get_state() taken by backup().
+   inh[h]  : bk[h] was inherited through copy(): it carries the source's id, the flow has a fresh one, so the two
+             states differ in "id" whatever the content is (until the flow reverts, which also gives it the source's id).
    ftype   : the flow type of the scenario (no influence on the model's behaviour; concretisation only).
-   ModifiedIgnoresBackupKey = FALSE is the code as it is: modified() compares _backup (whose "backup" entry is None)
-   with get_state() (whose "backup" entry is a copy of _backup), so it is True whenever a backup exists.
-   TRUE is the behaviour the statement asks for (compare the content only).                                     *)
+   ModifiedIgnoresBackupKey = TRUE is the code since /repo commit ecff67684 (modified() compares the content only).
+   FALSE is the code before it: modified() compared _backup (whose "backup" entry is None) with get_state() (whose
+   "backup" entry is a copy of _backup), so it was True whenever a backup existed (findings_proposed/C40.md).     *)
 EXTENDS Mon_BackupRevert, TLC
 CONSTANTS NFields, NVals, MaxOps, MaxFlows, Types, ModifiedIgnoresBackupKey
-VARIABLES ftype, cont, bk, ops, mon, obs
-vars == <<ftype, cont, bk, ops, mon, obs>>
+VARIABLES ftype, cont, bk, inh, ops, mon, obs
+vars == <<ftype, cont, bk, inh, ops, mon, obs>>
 
 RECURSIVE Pow(_, _)
 Pow(b, e) == IF e = 0 THEN 1 ELSE b * Pow(b, e - 1)
@@ -21,7 +23,7 @@ RECURSIVE Code(_, _)
 Code(c, i) == IF i = 0 THEN 0 ELSE c[i] * Pow(NVals, i - 1) + Code(c, i - 1)
 Id(c) == 1 + Code(c, NFields)            \* the state id props/C40.py computes by decoding the observed state
 
-Init == /\ ftype = "" /\ cont = <<>> /\ bk = <<>> /\ ops = 0 /\ mon = MonInit /\ obs = <<>>
+Init == /\ ftype = "" /\ cont = <<>> /\ bk = <<>> /\ inh = <<>> /\ ops = 0 /\ mon = MonInit /\ obs = <<>>
 Emit(evs) == obs' = evs /\ mon' = FoldEvents(MonStep, mon, evs)
 Live == mon.bad = <<>>
 SS(c) == [h \in 1..Len(c) |-> Id(c[h])]
@@ -32,14 +34,14 @@ Ex(h) == ftype # "" /\ h <= Len(cont)     \* flow h exists
 \* a fresh flow of the chosen type
 Start(t) ==
   /\ Live /\ ftype = ""
-  /\ ftype' = t /\ cont' = << [i \in 1..NFields |-> 0] >> /\ bk' = << <<>> >> /\ UNCHANGED ops
+  /\ ftype' = t /\ cont' = << [i \in 1..NFields |-> 0] >> /\ bk' = << <<>> >> /\ inh' = <<FALSE>> /\ UNCHANGED ops
   /\ Emit(<<[k |-> "init", ss |-> SS(cont'), hbs |-> HB(bk')]>>)
 
 \* Flow.backup(): if not self._backup: self._backup = self.get_state()
 Backup(h) ==
   /\ Live /\ Ex(h) /\ ops < MaxOps /\ ops' = ops + 1
   /\ bk' = IF bk[h] = <<>> THEN [bk EXCEPT ![h] = <<cont[h]>>] ELSE bk
-  /\ UNCHANGED <<ftype, cont>>
+  /\ UNCHANGED <<ftype, cont, inh>>
   /\ Emit(<<[k |-> "backup", f |-> h, ss |-> SS(cont), hbs |-> HB(bk')]>>)
 
 \* an edit of one part of the flow (attribute assignment or in-place mutation, chosen by the harness)
@@ -47,14 +49,14 @@ Edit(h, i, v) ==
   /\ Live /\ Ex(h) /\ ops < MaxOps /\ ops' = ops + 1
   /\ cont[h][i] # v
   /\ cont' = [cont EXCEPT ![h][i] = v]
-  /\ UNCHANGED <<ftype, bk>>
+  /\ UNCHANGED <<ftype, bk, inh>>
   /\ Emit(<<[k |-> "edit", f |-> h, ss |-> SS(cont'), hbs |-> HB(bk)]>>)
 
 \* Flow.revert(): if self._backup: self.set_state(self._backup); self._backup = None
 Revert(h) ==
   /\ Live /\ Ex(h) /\ ops < MaxOps /\ ops' = ops + 1
   /\ cont' = IF bk[h] # <<>> THEN [cont EXCEPT ![h] = bk[h][1]] ELSE cont
-  /\ bk' = [bk EXCEPT ![h] = <<>>]
+  /\ bk' = [bk EXCEPT ![h] = <<>>] /\ inh' = [inh EXCEPT ![h] = FALSE]
   /\ UNCHANGED ftype
   /\ Emit(<<[k |-> "revert", f |-> h, ss |-> SS(cont'), hbs |-> HB(bk')]>>)
 
@@ -62,17 +64,17 @@ Revert(h) ==
 \* (a pure query: not counted in ops, so it is explored in every reachable state of the other actions)
 ModifiedQ(h) ==
   /\ Live /\ Ex(h)
-  /\ UNCHANGED <<ftype, cont, bk, ops>>
+  /\ UNCHANGED <<ftype, cont, bk, inh, ops>>
   /\ Emit(<<[k |-> "modified", f |-> h,
              r |-> IF bk[h] = <<>> THEN FALSE
-                   ELSE IF ModifiedIgnoresBackupKey THEN bk[h][1] # cont[h] ELSE TRUE,
+                   ELSE IF ModifiedIgnoresBackupKey /\ ~inh[h] THEN bk[h][1] # cont[h] ELSE TRUE,
              ss |-> SS(cont), hbs |-> HB(bk)]>>)
 
 \* Flow.copy(): Serializable.copy (get_state, fresh id, from_state -- the state carries a deep copy of the backup),
 \* then live = False
 Copy(h) ==
   /\ Live /\ Ex(h) /\ ops < MaxOps /\ ops' = ops + 1 /\ Len(cont) < MaxFlows
-  /\ cont' = Append(cont, cont[h]) /\ bk' = Append(bk, bk[h])
+  /\ cont' = Append(cont, cont[h]) /\ bk' = Append(bk, bk[h]) /\ inh' = Append(inh, bk[h] # <<>>)
   /\ UNCHANGED ftype
   /\ Emit(<<[k |-> "copy", f |-> h, g |-> Len(cont) + 1, fresh |-> TRUE, live |-> FALSE,
              ss |-> SS(cont'), hbs |-> HB(bk')]>>)
@@ -85,6 +87,6 @@ Next == \/ \E t \in Types : Start(t)
         \/ \E h \in HS : Copy(h)
 Spec == Init /\ [][Next]_vars
 \* states that differ only in the collected witness set are the same state for the exploration
-View == <<ftype, cont, bk, ops, obs, [mon EXCEPT !.wit = {}]>>
+View == <<ftype, cont, bk, inh, ops, obs, [mon EXCEPT !.wit = {}]>>
 Report == mon.bad # <<>> => PrintT(<<"BAD", mon.bad>>)
 =============================================================================
